@@ -504,6 +504,19 @@ def setCmdFlag (s : S) : Except String S :=
   | .error e => .error e
   | .ok c => .ok (if c then { s with dec := { s.dec with fl := { s.dec.fl with cmdInBuf := true } } } else s)
 
+/-- PORT_ASCII / PORT_BINARY: lines already handed over but still in front of the buffer (an error in
+    process_input) are released first; no protocol overhead; a full buffer without LF is discarded -/
+def computeSpaceOther (s : S) : Except String (S × Nat) :=
+  if s.tstart > s.tend then .error "get_user_data: text_end - text_start wraps" else
+  match (if s.tstart > 0 then writeAt s.text 0 (slice s.text s.tstart s.tend) else .ok s.text) with
+  | .error e => .error e
+  | .ok t =>
+    let s := { s with text := t, tend := s.tend - s.tstart, tstart := 0 }
+    if s.tend + asciiReserve > MAXT then .error "get_user_data: MAX_TEXT - text_end - 1 wraps" else
+    let space := MAXT - s.tend - asciiReserve
+    if space = 0 then .ok ({ s with tstart := 0, tend := 0 }, MAXT - 1)        -- over-long line discarded
+    else .ok (s, space)
+
 /-- the length get_user_data passes to recv(), after compaction / discard -/
 def computeSpace (s : S) : Except String (S × Nat) :=
   match s.port with
@@ -525,17 +538,7 @@ def computeSpace (s : S) : Except String (S × Nat) :=
           .ok ({ s with tstart := 0, tend := 0 }, MAXT / discardSpaceDiv)       -- discard
         else .ok (s, space)
     else .ok (s, space)
-  | _ =>
-    -- lines already handed over but still in front of the buffer (an error in process_input): released first
-    if s.tstart > s.tend then .error "get_user_data: text_end - text_start wraps" else
-    match (if s.tstart > 0 then writeAt s.text 0 (slice s.text s.tstart s.tend) else .ok s.text) with
-    | .error e => .error e
-    | .ok t =>
-      let s := { s with text := t, tend := s.tend - s.tstart, tstart := 0 }
-      if s.tend + asciiReserve > MAXT then .error "get_user_data: MAX_TEXT - text_end - 1 wraps" else
-      let space := MAXT - s.tend - asciiReserve
-      if space = 0 then .ok ({ s with tstart := 0, tend := 0 }, MAXT - 1)        -- over-long line discarded
-      else .ok (s, space)
+  | _ => computeSpaceOther s
 
 /-- get_user_data (readiness path, `evt == NULL`) -/
 def getUserData (o : Oracle) (s : S) : Except String (S × List Ev) :=
